@@ -17,7 +17,8 @@ ASSUMPTIONS = [
 SOURCE_FILES = ["barter/src/statistic/metric/drawdown/mod.rs", "barter/src/statistic/metric/drawdown/max.rs",
                 "barter/src/statistic/metric/drawdown/mean.rs", "barter/src/statistic/summary/asset.rs",
                 "barter/src/statistic/summary/instrument.rs", "barter/src/statistic/summary/pnl.rs",
-                "barter/src/statistic/algorithm.rs"]
+                "barter/src/statistic/algorithm.rs", "barter/src/lib.rs"]
+PREBUILD = [["python3", "tools/rust2lean_sm.py", "--require", "drawdown"]]
 
 
 def signature(ops, k, key, impl_line, spec_line):
@@ -47,4 +48,9 @@ LEVEL_NOTE = ("Trusted: Lean kernel; axioms propext/Classical.choice/Quot.sound 
               "20k random + all 1364 curves of length <=5 over 4 levels thorough); harness and driver. Exact rationals instead of rust_decimal (1e-18 "
               "tolerance on division-derived fields). The mean duration is an integer incremental average, not the exact average (bounded deviation "
               "proved). Repeated generate() on the same tear sheet double-counts the in-progress drawdown: outside the property (first generate), "
-              "recorded as an example and exercised by correspondence.")
+              "recorded as an example and exercised by correspondence."
+              " Additionally tied by translation: the drawdown step functions (DrawdownGenerator::{init, generate, update}, MaxDrawdownGenerator::{update, generate}, "
+              "MeanDrawdownGenerator::{update, generate}, Drawdown::duration, welford_online::calculate_mean at Decimal and i64) are regenerated as Lean state-passing "
+              "functions from the current source on every run (tools/rust2lean_sm.py) and proved equal to the model's for all states and inputs "
+              "(kernels_agree_with_source), so a change of such a function breaks a proof obligation directly; the translator's reading of its Rust subset and "
+              "its fixed vocabulary (Decimal as Rat, DateTime/TimeDelta as integer milliseconds, u64 as unbounded Nat) is trusted for that tie.")
